@@ -48,4 +48,27 @@ def tick (F : Facts) (paused low : Bool) : Bool :=
 def watch (F : Facts) (lows : List Bool) : List Bool :=
   (lows.foldl (fun (acc : Bool × List Bool) low => let p := tick F acc.1 low; (p, acc.2 ++ [p])) (false, [])).2
 
+/-! ### from the command line to the setting
+
+`--min-space-required` is a float flag (cmd/get.go); `config.InitConfig` runs `handleFlagsAliases` on the
+bound keys before unmarshalling. `given` is what the key holds then: the operator's value (flag, `ZENO_`
+environment variable or config file) or the flag's declared default. -/
+
+/-- `viper.GetInt` / `viper.GetFloat64` on the text of a float setting: `cast` turns an integral text
+into that integer and any other decimal into 0 -/
+def getAs (getter : String) (q : Rat) : Rat :=
+  if getter == "GetFloat64" then q else if q.isInt then q else 0
+
+/-- `handleFlagsAliases` on the key; `alias` is what the alias key ("msr") holds -/
+def afterAliases (F : Facts) (given alias : Rat) : Rat :=
+  if F.msrAliasRule == "copyAlias" then
+    if getAs F.msrAliasGetter alias != F.msrAliasUnsetConst && getAs F.msrAliasGetter given == F.msrAliasKeyConst
+    then getAs F.msrAliasGetter alias else given
+  else given
+
+/-- the setting that reaches `CheckDiskUsage` when the operator gives `v` (`none`: nothing given) and
+does not use the alias key -/
+def configured (F : Facts) (v : Option Rat) : Rat :=
+  afterAliases F (v.getD F.msrFlagDefault) F.msrAliasDefault
+
 end Zeno.Model.Disk
